@@ -115,10 +115,11 @@ void taskMain(void * arg)
       simrt::opBegin(gLabels[sc][op.kind].c_str(), cls);
       switch (op.kind) {
         case O_STORE:
-          if (sc == S_SHARED_VAR) {s.var->store(Blob::make(op.seq));} else {s.opt->store(Blob::make(op.seq));}
+          // op.v != 0 selects the operator form of the same operation (operator= / operator T())
+          if (sc == S_SHARED_VAR) {if (op.v != 0) {*s.var = Blob::make(op.seq);} else {s.var->store(Blob::make(op.seq));}} else {s.opt->store(Blob::make(op.seq));}
           break;
         case O_LOAD: {
-            Blob b = s.var->load();
+            Blob b = op.v != 0 ? static_cast<Blob>(*s.var) : s.var->load();
             if (!b.intact()) {simrt::fail("torn-read", "SharedVariable::load returned a half-written value (words belong to different stores)", "torn-read|SharedVariable");}
             rec.outSeq = b.w[0];
             break;
